@@ -18,6 +18,7 @@ package cache
 //@ pred CountersRegistered() := RegisteredInt("targetLeaves") && RegisteredInt("targetLeavesAdded") && RegisteredInt("targetLeavesDeleted")
 //@   && RegisteredInt("targetLeavesStale") && RegisteredInt("targetLeavesFuture") && RegisteredInt("targetLeavesSuppressed")
 //@   && RegisteredInt("targetLeavesUpdated") && RegisteredInt("targetLeavesEmpty")
+//@   && RegisteredBool("sync") && RegisteredBool("connected") && RegisteredStr("connectedAddress") && RegisteredStr("connectError")
 
 // What protobuf decoding guarantees for a message received from a peer:
 // repeated fields hold no nil element, a set oneof holds a non-nil wrapper.
@@ -56,11 +57,19 @@ package cache
 //@   ensures view(res0) == sub(idxpath(pr, true) ++ idxpath(ph, false), 1, len(idxpath(pr, true)) + len(idxpath(ph, false)))
 //@   ensures res0 != nil && fresh(res0)
 
+// synced: the sync flag as read under tsmu (lastSynced remembers the latest answer).
+//@ ghost lastSynced bool
+//@ func (*Target).synced
+//@   props C15 C12
+//@   locks t
+//@   requires t != nil
+//@   effect lastSynced := res0
+//@   ensures res0 == t.sync
 //@ func (*Target).gnmiUpdate
 //@   props C02 C03 C12 C14 C15 C01
 //@   locks t
 //@   requires TargetWf(t) && NotiWf(n) && len(n.Update) >= 1 && n.Prefix != nil && n.Prefix.Target != "" && StoredWf(t) && CountersRegistered() && AllTVWf()
-//@   modifies ghost tstore, ghost treal, ghost intAdded, heap(ctree.Tree.leafBranch), t.sync
+//@   modifies ghost tstore, ghost treal, ghost intAdded, ghost boolSets, ghost lastBool, ghost strSets, ghost lastStr, ghost latSamples, ghost lastSampleTs, ghost lastSynced, heap(ctree.Tree.leafBranch), t.sync
 //@   effect owed := ite(res0 != nil, owed ++ unit(res0), owed)
 //@   effect updSteps := updSteps + 1
 //@   ensures [rejected-changes-nothing] res1 != nil ==> res0 == nil && TreeSame()
@@ -81,6 +90,21 @@ package cache
 //@     ==> n.Update[0].Val != nil && isa(n.Update[0].Val.Value.(*pb.TypedValue_BoolVal))
 //@   ensures [never-removes C14] forall k PKey :: old(tstore[t.t][k]) != nil ==> tstore[t.t][k] == old(tstore[t.t][k])
 //@   ensures [stored-values-exist] old(StoredExist()) ==> StoredExist()
+// The collector's metadata leaves are mirrored into the target's metadata registry, and the sync flag follows meta/sync.
+//@   assert at call (*Target).setSync#0: [sync-flag-follows-meta-sync C15 C04] arg1 == n.Update[0].Val.Value.(*pb.TypedValue_BoolVal).BoolVal
+//@   ensures [meta-sync-recorded C15] res1 == nil && len(JP(n)) >= 2 && first(JP(n)) == "meta" && JP(n)[1] == "sync"
+//@     ==> lastBool[t.meta]["sync"] == n.Update[0].Val.Value.(*pb.TypedValue_BoolVal).BoolVal && boolSets[t.meta]["sync"] == old(boolSets[t.meta]["sync"]) + 1
+//@         && hits("call (*Target).setSync#0") == old(hits("call (*Target).setSync#0")) + 1
+//@   ensures [meta-connected-recorded C15] res1 == nil && len(JP(n)) >= 2 && first(JP(n)) == "meta" && JP(n)[1] == "connected"
+//@     ==> lastBool[t.meta]["connected"] == n.Update[0].Val.Value.(*pb.TypedValue_BoolVal).BoolVal && boolSets[t.meta]["connected"] == old(boolSets[t.meta]["connected"]) + 1
+//@   ensures [meta-strings-recorded C15] res1 == nil && len(JP(n)) >= 2 && first(JP(n)) == "meta" && (JP(n)[1] == "connectedAddress" || JP(n)[1] == "connectError")
+//@     ==> lastStr[t.meta][JP(n)[1]] == n.Update[0].Val.Value.(*pb.TypedValue_StringVal).StringVal && strSets[t.meta][JP(n)[1]] == old(strSets[t.meta][JP(n)[1]]) + 1
+//@   ensures [real-data-never-touches-the-registry-flags C15] Real(n) ==> boolSets == old(boolSets) && strSets == old(strSets)
+// Latency is sampled for accepted, non-suppressed, non-metadata updates of a synced target, with the update's own timestamp.
+//@   assert at call (*Latency).Compute#0: [sampled-with-the-update-timestamp C15] tinst(arg1) == n.Timestamp && arg0 == t.lat
+//@   assert at call (*Latency).Compute#1: [sampled-with-the-update-timestamp C15] tinst(arg1) == n.Timestamp && arg0 == t.lat
+//@   ensures [latency-sampled-exactly-for-stored-real-updates-after-sync C15] latSamples[t.lat] == old(latSamples[t.lat]) + ite(Real(n) && res1 == nil && (res0 != nil || old(L0(t, n)) == nil) && lastSynced, 1, 0)
+//@     && (forall l ref :: l != t.lat ==> latSamples[l] == old(latSamples[l]))
 // C03: the change feed. A leaf is returned (to be announced) iff the tree changed and the change is not suppressed;
 // suppression happens only with event-driven emulation on, for a non-atomic update whose value equals the stored one.
 //@   ensures [announce-the-changed-leaf C03] res0 != nil ==> res1 == nil && res0 == L0(t, n) && LeafVal(res0) == box(n)
@@ -141,7 +165,7 @@ package cache
 //@ func (*Target).gnmiRemove
 //@   props C02 C03 C12 C14 C15 C01
 //@   requires TargetWf(t) && NotiWf(n) && len(n.Delete) >= 1 && n.Prefix != nil && n.Prefix.Target != "" && StoredWf(t) && CountersRegistered()
-//@   modifies ghost tstore, ghost treal, ghost intAdded, ghost resetDone
+//@   modifies ghost tstore, ghost treal, ghost intAdded, ghost boolSets, ghost lastBool, ghost strSets, ghost lastStr, ghost latSamples, ghost lastSampleTs, ghost lastSynced, ghost resetDone
 //@   effect owed := owed ++ view(res0)
 //@   effect delSteps := delSteps + 1
 //@   ensures [conditional-delete C02 C03] forall k PKey :: tstore[t.t][k] == ite(old(tstore[t.t][k]) != nil && pmatch(pkey(JPD(n)), k)
@@ -204,14 +228,14 @@ package cache
 //@   props C03 C12 C14 C15 C02 C01
 //@   requires TargetWf(t) && NotiWf(n) && n.Prefix != nil && n.Prefix.Target != "" && StoredWf(t) && CountersRegistered() && AllTVWf()
 //@   requires len(owed) == 0 && Unstored(n)
-//@   modifies ghost tstore, ghost treal, ghost intAdded, ghost owed, ghost tsSeen, ghost updSteps, ghost delSteps, ghost wiped, ghost resetDone, heap(ctree.Tree.leafBranch), t.sync, t.ts, n.Update, n.Delete
-//@   invariant 0: (old(StoredExist()) ==> StoredExist()) && OthersKept(t) && len(owed) == 0 && StoredWf(t) && n.Update == nil && n.Delete == nil && InputsWf(updates, deletes)
+//@   modifies ghost tstore, ghost treal, ghost intAdded, ghost boolSets, ghost lastBool, ghost strSets, ghost lastStr, ghost latSamples, ghost lastSampleTs, ghost lastSynced, ghost owed, ghost tsSeen, ghost updSteps, ghost delSteps, ghost wiped, ghost resetDone, heap(ctree.Tree.leafBranch), t.sync, t.ts, n.Update, n.Delete
+//@   invariant 0: (old(StoredExist()) ==> StoredExist()) && CountersRegistered() && OthersKept(t) && len(owed) == 0 && StoredWf(t) && n.Update == nil && n.Delete == nil && InputsWf(updates, deletes)
 //@     && updates == old(n.Update) && deletes == old(n.Delete) && updSteps == old(updSteps) + $i && delSteps == old(delSteps) && 0 <= $i && $i <= len(updates)
-//@   invariant 1: (old(StoredExist()) ==> StoredExist()) && OthersKept(t) && len(owed) == 0 && StoredWf(t) && n.Update == nil && n.Delete == nil && InputsWf(updates, deletes)
+//@   invariant 1: (old(StoredExist()) ==> StoredExist()) && CountersRegistered() && OthersKept(t) && len(owed) == 0 && StoredWf(t) && n.Update == nil && n.Delete == nil && InputsWf(updates, deletes)
 //@     && updates == old(n.Update) && deletes == old(n.Delete) && updSteps == old(updSteps) + len(updates) && delSteps == old(delSteps) + $i && 0 <= $i && $i <= len(deletes)
-//@   invariant 2: (old(StoredExist()) ==> StoredExist()) && OthersKept(t) && StoredWf(t) && n.Update == nil && n.Delete == nil && InputsWf(updates, deletes) && Owing($range, $i)
+//@   invariant 2: (old(StoredExist()) ==> StoredExist()) && CountersRegistered() && OthersKept(t) && StoredWf(t) && n.Update == nil && n.Delete == nil && InputsWf(updates, deletes) && Owing($range, $i)
 //@     && updates == old(n.Update) && deletes == old(n.Delete) && updSteps == old(updSteps) + len(updates) && delSteps == old(delSteps) + $i1 + 1 && 0 <= $i1 && $i1 < len(deletes)
-//@   invariant 3: (old(StoredExist()) ==> StoredExist()) && OthersKept(t) && StoredWf(t) && Owing($range, $i) && updSteps == old(updSteps) && delSteps == old(delSteps) + 1
+//@   invariant 3: (old(StoredExist()) ==> StoredExist()) && CountersRegistered() && OthersKept(t) && StoredWf(t) && Owing($range, $i) && updSteps == old(updSteps) && delSteps == old(delSteps) + 1
 //@   ensures [updates-then-deletes C03 C01] !n.Atomic ==> updSteps == old(updSteps) + old(len(n.Update)) && delSteps == old(delSteps) + old(len(n.Delete))
 //@   ensures [atomic-is-one-step C03 C01] n.Atomic && len(n.Delete) == 0 ==> updSteps == old(updSteps) + ite(len(n.Update) > 0, 1, 0) && delSteps == old(delSteps)
 //@   ensures [ts-advanced-on-accept C15] old(GuardTS(n)) && old(Single(n)) && res0 == nil ==> tsSeen[t] >= n.Timestamp
@@ -317,7 +341,7 @@ package cache
 //@ func (*Target).generateMetaUpdates
 //@   props C14 C15 C03 C12
 //@   requires Ready(t) && len(owed) == 0 && clients != nil
-//@   modifies ghost tstore, ghost treal, ghost intAdded, ghost owed, ghost updSteps, heap(ctree.Tree.leafBranch), t.sync
+//@   modifies ghost tstore, ghost treal, ghost intAdded, ghost boolSets, ghost lastBool, ghost strSets, ghost lastStr, ghost latSamples, ghost lastSampleTs, ghost lastSynced, ghost owed, ghost updSteps, heap(ctree.Tree.leafBranch), t.sync
 //@   invariant 0: MetaGenInv(t)
 //@   invariant 1: MetaGenInv(t)
 //@   invariant 2: MetaGenInv(t)
@@ -330,7 +354,7 @@ package cache
 //@   props C14 C15 C03 C12
 //@   locks t
 //@   requires Ready(t) && len(owed) == 0 && clients != nil
-//@   modifies ghost tstore, ghost treal, ghost intAdded, ghost owed, ghost updSteps, heap(ctree.Tree.leafBranch), t.sync
+//@   modifies ghost tstore, ghost treal, ghost intAdded, ghost boolSets, ghost lastBool, ghost strSets, ghost lastStr, ghost latSamples, ghost lastSampleTs, ghost lastSynced, ghost owed, ghost updSteps, heap(ctree.Tree.leafBranch), t.sync
 //@   ensures [only-adds C14] Kept(t)
 //@   ensures [other-targets-untouched C14] OthersKept(t)
 //@   ensures [all-announced C03] len(owed) == 0
@@ -344,7 +368,7 @@ package cache
 //@ func (*Target).Reset
 //@   props C14 C04 C03 C12
 //@   requires Ready(t) && len(owed) == 0
-//@   modifies ghost tstore, ghost treal, ghost intAdded, ghost owed, ghost updSteps, ghost wiped, ghost resetDone, heap(ctree.Tree.leafBranch), t.sync, t.ts
+//@   modifies ghost tstore, ghost treal, ghost intAdded, ghost boolSets, ghost lastBool, ghost strSets, ghost lastStr, ghost latSamples, ghost lastSampleTs, ghost lastSynced, ghost owed, ghost updSteps, ghost wiped, ghost resetDone, heap(ctree.Tree.leafBranch), t.sync, t.ts
 //@   assert at call (*Target).resetTimestamp#0: [latest-timestamp-cleared C14] arg0 == t
 //@   assert at call (*Metadata).Clear#0: [metadata-cleared-first C14] arg0 == t.meta
 //@   assert at call (*Target).updateMeta#0: [metadata-leaves-regenerated-and-announced C14] arg0 == t && arg1 == t.client
@@ -388,7 +412,7 @@ package cache
 //@   props C14 C12
 //@   locks c
 //@   requires c != nil && target != ""
-//@   modifies ghost resetDone
+//@   modifies ghost resetDone, ghost boolSets, ghost lastBool, ghost strSets, ghost lastStr
 //@   ensures [registered C14] res0 != nil && fresh(res0) && c.targets[target] == res0 && res0.name == target
 //@   ensures [own-tree-and-metadata C14] res0.t != nil && fresh(res0.t) && res0.meta != nil && fresh(res0.meta)
 //@   ensures [others-kept C14] forall k string :: k != target ==> c.targets[k] == old(c.targets[k]) && (has(c.targets, k) <==> old(has(c.targets, k)))
@@ -397,7 +421,7 @@ package cache
 //@   props C14 C12
 //@   locks c
 //@   requires c != nil && Globals() && len(owed) == 0
-//@   modifies ghost tstore, ghost treal, ghost intAdded, ghost owed, ghost updSteps, ghost wiped, ghost resetDone, heap(ctree.Tree.leafBranch), heap(Target.sync), heap(Target.ts)
+//@   modifies ghost tstore, ghost treal, ghost intAdded, ghost boolSets, ghost lastBool, ghost strSets, ghost lastStr, ghost latSamples, ghost lastSampleTs, ghost lastSynced, ghost owed, ghost updSteps, ghost wiped, ghost resetDone, heap(ctree.Tree.leafBranch), heap(Target.sync), heap(Target.ts)
 //@   assert at call (*Target).Reset#0: [addressed-target-only C14] arg0 == c.targets[target]
 //@   ensures [other-targets-untouched C14] forall u ref :: c.targets[target] == nil || u != c.targets[target].t ==> tstore[u] == old(tstore[u]) && treal[u] == old(treal[u])
 //@   ensures [only-this-target-announced C14] forall s string :: s != target ==> wiped[s] == old(wiped[s])
@@ -406,7 +430,7 @@ package cache
 //@   props C14 C03 C12 C01
 //@   locks c
 //@   requires c != nil && Globals() && len(owed) == 0 && (n != nil ==> NotiWf(n) && Unstored(n))
-//@   modifies ghost tstore, ghost treal, ghost intAdded, ghost owed, ghost tsSeen, ghost updSteps, ghost delSteps, ghost wiped, ghost resetDone, heap(ctree.Tree.leafBranch), heap(Target.sync), heap(Target.ts), n.Update, n.Delete
+//@   modifies ghost tstore, ghost treal, ghost intAdded, ghost boolSets, ghost lastBool, ghost strSets, ghost lastStr, ghost latSamples, ghost lastSampleTs, ghost lastSynced, ghost owed, ghost tsSeen, ghost updSteps, ghost delSteps, ghost wiped, ghost resetDone, heap(ctree.Tree.leafBranch), heap(Target.sync), heap(Target.ts), n.Update, n.Delete
 //@   assert at call (*Target).GnmiUpdate#0: [addressed-target-only C14] arg0 == c.targets[n.Prefix.Target] && arg0 != nil
 //@   ensures [nil-refused] n == nil ==> res0 != nil
 //@   ensures [handed-to-the-addressed-target C14 C01] n != nil && n.Prefix != nil && c.targets[n.Prefix.Target] != nil && !n.Atomic ==> updSteps == old(updSteps) + old(len(n.Update)) && delSteps == old(delSteps) + old(len(n.Delete))
@@ -441,17 +465,17 @@ package cache
 //@ func (*Target).Sync
 //@   props C14 C15 C12
 //@   requires Ready(t) && len(owed) == 0 && StoredExist()
-//@   modifies ghost tstore, ghost treal, ghost intAdded, ghost owed, ghost tsSeen, ghost updSteps, ghost delSteps, ghost wiped, ghost resetDone, heap(ctree.Tree.leafBranch), t.sync, t.ts, heap(pb.Notification.Update), heap(pb.Notification.Delete)
+//@   modifies ghost tstore, ghost treal, ghost intAdded, ghost boolSets, ghost lastBool, ghost strSets, ghost lastStr, ghost latSamples, ghost lastSampleTs, ghost lastSynced, ghost owed, ghost tsSeen, ghost updSteps, ghost delSteps, ghost wiped, ghost resetDone, heap(ctree.Tree.leafBranch), t.sync, t.ts, heap(pb.Notification.Update), heap(pb.Notification.Delete)
 //@   ensures [only-this-target C14] EventPost(t)
 //@ func (*Target).Connect
 //@   props C14 C15 C12
 //@   requires Ready(t) && len(owed) == 0 && StoredExist()
-//@   modifies ghost tstore, ghost treal, ghost intAdded, ghost owed, ghost tsSeen, ghost updSteps, ghost delSteps, ghost wiped, ghost resetDone, heap(ctree.Tree.leafBranch), t.sync, t.ts, heap(pb.Notification.Update), heap(pb.Notification.Delete)
+//@   modifies ghost tstore, ghost treal, ghost intAdded, ghost boolSets, ghost lastBool, ghost strSets, ghost lastStr, ghost latSamples, ghost lastSampleTs, ghost lastSynced, ghost owed, ghost tsSeen, ghost updSteps, ghost delSteps, ghost wiped, ghost resetDone, heap(ctree.Tree.leafBranch), t.sync, t.ts, heap(pb.Notification.Update), heap(pb.Notification.Delete)
 //@   ensures [only-this-target C14] OthersKept(t) && len(owed) == 0
 //@ func (*Target).connectError
 //@   props C14 C15 C12
 //@   requires Ready(t) && len(owed) == 0 && StoredExist() && err != nil
-//@   modifies ghost tstore, ghost treal, ghost intAdded, ghost owed, ghost tsSeen, ghost updSteps, ghost delSteps, ghost wiped, ghost resetDone, heap(ctree.Tree.leafBranch), t.sync, t.ts, heap(pb.Notification.Update), heap(pb.Notification.Delete)
+//@   modifies ghost tstore, ghost treal, ghost intAdded, ghost boolSets, ghost lastBool, ghost strSets, ghost lastStr, ghost latSamples, ghost lastSampleTs, ghost lastSynced, ghost owed, ghost tsSeen, ghost updSteps, ghost delSteps, ghost wiped, ghost resetDone, heap(ctree.Tree.leafBranch), t.sync, t.ts, heap(pb.Notification.Update), heap(pb.Notification.Delete)
 //@   ensures [only-this-target C14] EventPost(t)
 //@ func iface error.Error
 
@@ -461,19 +485,19 @@ package cache
 //@   props C14 C12
 //@   locks c
 //@   requires c != nil && Globals() && len(owed) == 0 && StoredExist()
-//@   modifies ghost tstore, ghost treal, ghost intAdded, ghost owed, ghost tsSeen, ghost updSteps, ghost delSteps, ghost wiped, ghost resetDone, heap(ctree.Tree.leafBranch), heap(Target.sync), heap(Target.ts), heap(pb.Notification.Update), heap(pb.Notification.Delete)
+//@   modifies ghost tstore, ghost treal, ghost intAdded, ghost boolSets, ghost lastBool, ghost strSets, ghost lastStr, ghost latSamples, ghost lastSampleTs, ghost lastSynced, ghost owed, ghost tsSeen, ghost updSteps, ghost delSteps, ghost wiped, ghost resetDone, heap(ctree.Tree.leafBranch), heap(Target.sync), heap(Target.ts), heap(pb.Notification.Update), heap(pb.Notification.Delete)
 //@   assert at call (*Target).Sync#0: [addressed-target-only C14] arg0 == c.targets[name] && arg0 != nil
 //@ func (*Cache).Connect
 //@   props C14 C12
 //@   locks c
 //@   requires c != nil && Globals() && len(owed) == 0 && StoredExist()
-//@   modifies ghost tstore, ghost treal, ghost intAdded, ghost owed, ghost tsSeen, ghost updSteps, ghost delSteps, ghost wiped, ghost resetDone, heap(ctree.Tree.leafBranch), heap(Target.sync), heap(Target.ts), heap(pb.Notification.Update), heap(pb.Notification.Delete)
+//@   modifies ghost tstore, ghost treal, ghost intAdded, ghost boolSets, ghost lastBool, ghost strSets, ghost lastStr, ghost latSamples, ghost lastSampleTs, ghost lastSynced, ghost owed, ghost tsSeen, ghost updSteps, ghost delSteps, ghost wiped, ghost resetDone, heap(ctree.Tree.leafBranch), heap(Target.sync), heap(Target.ts), heap(pb.Notification.Update), heap(pb.Notification.Delete)
 //@   assert at call (*Target).Connect#0: [addressed-target-only C14] arg0 == c.targets[name] && arg0 != nil
 //@ func (*Cache).ConnectError
 //@   props C14 C12
 //@   locks c
 //@   requires c != nil && Globals() && len(owed) == 0 && StoredExist() && err != nil
-//@   modifies ghost tstore, ghost treal, ghost intAdded, ghost owed, ghost tsSeen, ghost updSteps, ghost delSteps, ghost wiped, ghost resetDone, heap(ctree.Tree.leafBranch), heap(Target.sync), heap(Target.ts), heap(pb.Notification.Update), heap(pb.Notification.Delete)
+//@   modifies ghost tstore, ghost treal, ghost intAdded, ghost boolSets, ghost lastBool, ghost strSets, ghost lastStr, ghost latSamples, ghost lastSampleTs, ghost lastSynced, ghost owed, ghost tsSeen, ghost updSteps, ghost delSteps, ghost wiped, ghost resetDone, heap(ctree.Tree.leafBranch), heap(Target.sync), heap(Target.ts), heap(pb.Notification.Update), heap(pb.Notification.Delete)
 //@   assert at call (*Target).connectError#0: [addressed-target-only C14] arg0 == c.targets[name] && arg0 != nil
 
 // SetClient installs the feed callback in the cache and in every target, under the lock.
